@@ -28,6 +28,8 @@ func main() {
 		os.Exit(cmdReplay(os.Args[2:]))
 	case "reach":
 		cmdReach(os.Args[2:])
+	case "writers":
+		cmdWriters(os.Args[2:])
 	default:
 		fmt.Fprintln(os.Stderr, "unknown command", os.Args[1])
 		os.Exit(2)
@@ -212,5 +214,29 @@ func cmdReach(args []string) {
 	sort.Strings(ks)
 	for _, k := range ks {
 		fmt.Println(k)
+	}
+}
+
+// cmdWriters: print every writers obligation with its verdict and the reason (debugging aid).
+func cmdWriters(args []string) {
+	fs := flag.NewFlagSet("writers", flag.ExitOnError)
+	repo := fs.String("repo", "/repo", "repository root")
+	fs.Parse(args)
+	w, err := loadWorld(*repo, nil)
+	if err != nil {
+		fmt.Fprintln(os.Stderr, err)
+		os.Exit(2)
+	}
+	seen := map[string]bool{}
+	for _, wd := range w.writers {
+		for _, p := range wd.Serves {
+			if seen[p] {
+				continue
+			}
+			seen[p] = true
+			for _, o := range w.writersObligations(p).Obls {
+				fmt.Printf("%s %s goal=%s %s\n", p, o.Name, o.Goal, o.Detail)
+			}
+		}
 	}
 }
